@@ -258,3 +258,43 @@ fn c05_h7_integer_text_d40() {
     integer_action_check::<42>(40);
 }
 
+
+/// One float literal text (constant) through the `Float` action: exact bits of the result.
+fn float_text_case(text: &str, want_bits: u64) {
+    let got = std::mem::ManuallyDrop::new(call_action_float(text));
+    match &*got {
+        | Ok(lit) => {
+            assert!(lit.to_bits() == want_bits, "float literal denotes exactly its decimal text (sign of zero included)");
+            assert!(lit.float_type() == FloatType::Float64, "parsed float literal is binary64 until checked");
+        }
+        | Err(_) => assert!(false, "float literal action failed on a token the lexer admits"),
+    }
+}
+
+//@ id: c05_h7_float_text_cases
+//@ property: C05
+//@ tier: quick
+//@ encodes: the `Float` semantic action of parser.lalrpop (copied verbatim at run time), <f64 as FromStr>::from_str (dec2flt) on concrete texts, FloatLiteral::from(f64)
+//@ sym: which of 12 concrete FloatLit token texts (constant call sites chosen by the solver): signed zeros in every spelling, underflow to signed zero, small/large magnitudes of either sign, exponent forms
+//@ oracle: the IEEE-754 binary64 bit pattern of each text written out in the harness
+//@ bounds: concrete texts only (dec2flt on symbolic digits is out of reach); unwind 40
+//@ replay: playback
+#[kani::proof]
+#[kani::unwind(40)]
+fn c05_h7_float_text_cases() {
+    let which: u8 = kani::any();
+    match which {
+        | 0 => float_text_case("0.0", 0x0000_0000_0000_0000),
+        | 1 => float_text_case("-0.0", 0x8000_0000_0000_0000),
+        | 2 => float_text_case("+0.0", 0x0000_0000_0000_0000),
+        | 3 => float_text_case("-0e0", 0x8000_0000_0000_0000),
+        | 4 => float_text_case("-1e-400", 0x8000_0000_0000_0000),
+        | 5 => float_text_case("1.5", 0x3FF8_0000_0000_0000),
+        | 6 => float_text_case("-1.5", 0xBFF8_0000_0000_0000),
+        | 7 => float_text_case("+2.5", 0x4004_0000_0000_0000),
+        | 8 => float_text_case("1e3", 0x408F_4000_0000_0000),
+        | 9 => float_text_case("-2.5E-1", 0xBFD0_0000_0000_0000),
+        | 10 => float_text_case("1e400", 0x7FF0_0000_0000_0000),
+        | _ => float_text_case("-1e400", 0xFFF0_0000_0000_0000),
+    }
+}
